@@ -32,6 +32,12 @@ static unsigned long long rnd(void) {   /* splitmix64 */
     z = (z ^ (z >> 30)) * 0xbf58476d1ce4e5b9ULL; z = (z ^ (z >> 27)) * 0x94d049bb133111ebULL; return z ^ (z >> 31);
 }
 
+/* invalid use of a synchronisation object by the code under test: tell the harness (optional callback), then stop the run */
+static void zv_fatal(const char* what) {
+    if (P.on_fatal) P.on_fatal(what);
+    fprintf(stderr, "zv_sched: %s\n", what); _exit(6);
+}
+
 static int enabled(int t) {
     if (!T[t].used) return 0;
     switch (T[t].st) {
@@ -122,8 +128,35 @@ static int create_tid(int tid, void* (*fn)(void*), void* arg) {
     return 0;
 }
 int zv_spawn(int tid, void* (*fn)(void*), void* arg) { return create_tid(tid, fn, arg); }
+
+/* fault injection driven by the schedule (see zv_sched.h); one decision per step */
+static int g_fault_step = -2, g_fault_w = 0, g_fault_creates = 0;
+static __thread int zv_my_faults = 0;
+int zv_step_fault(int nalt) {
+    int const mystep = g_step - 1;
+    if (!P.fault_enable || mystep < 0) return 0;
+    if (g_fault_step != mystep) {
+        g_fault_step = mystep; g_fault_creates = 0;
+        if (mystep < P.sched_len) g_fault_w = P.sched_w[mystep];
+        else if (P.policy == ZV_POLICY_RANDOM && P.fault_pct > 0 && (int)(rnd() % 100) < P.fault_pct) g_fault_w = 1 + (int)(rnd() % 4);
+        else g_fault_w = 0;
+        g_last_w = g_fault_w; g_trace[mystep].w = g_fault_w;
+    }
+    if (nalt > g_trace[mystep].nwake) { g_trace[mystep].nwake = nalt; g_last_nwake = nalt; }
+    return g_fault_w;
+}
+int zv_thread_faults(void) { return zv_my_faults; }
+static int g_create_countdown = 0;
+void zv_fail_create_at(int k) { g_create_countdown = k; }
+
 int zv_pthread_create(pthread_t* t, const pthread_attr_t* a, void* (*f)(void*), void* x) {
-    int tid = g_next_worker++; (void)a;
+    int tid; (void)a;
+    if (g_create_countdown > 0 && --g_create_countdown == 0) { zv_my_faults++; return 11 /* EAGAIN */; }
+    if (P.fault_enable && g_step > 0) {
+        int w; enter(); w = zv_step_fault(0); g_fault_creates++; (void)zv_step_fault(g_fault_creates + 2); leave();
+        if (w == g_fault_creates + 1) { zv_my_faults++; return 11 /* EAGAIN */; }
+    }
+    tid = g_next_worker++;
     *t = (pthread_t)(1000 + tid);
     return create_tid(tid, f, x);
 }
@@ -139,13 +172,13 @@ int zv_pthread_join(pthread_t t, void** r) { (void)r; zv_join_tid((int)((unsigne
 int zv_mutex_init(pthread_mutex_t* m, const pthread_mutexattr_t* a) { zv_mutex* z = (zv_mutex*)m; (void)a; z->magic = ZV_MMAGIC; z->owner = -1; return 0; }
 int zv_mutex_destroy(pthread_mutex_t* m) {
     zv_mutex* z = (zv_mutex*)m;
-    if (z->magic != ZV_MMAGIC || z->owner >= 0) { fprintf(stderr, "zv_sched: destroy of a locked/invalid mutex\n"); _exit(6); }
+    if (z->magic != ZV_MMAGIC || z->owner >= 0) zv_fatal("destroy of a locked/invalid mutex");
     z->magic = 0; return 0;
 }
 int zv_mutex_lock(pthread_mutex_t* m) {
     zv_mutex* z = (zv_mutex*)m; int me = zv_me;
     enter();
-    if (z->magic != ZV_MMAGIC) { fprintf(stderr, "zv_sched: lock of an invalid mutex\n"); _exit(6); }
+    if (z->magic != ZV_MMAGIC) zv_fatal("lock of an invalid mutex");
     T[me].st = ZS_MUTEX; T[me].mtx = z; T[me].obj = z; reschedule(me);
     z->owner = me; T[me].st = ZS_RUN;
     leave(); return 0;
@@ -153,20 +186,20 @@ int zv_mutex_lock(pthread_mutex_t* m) {
 int zv_mutex_unlock(pthread_mutex_t* m) {
     zv_mutex* z = (zv_mutex*)m; int me = zv_me;
     enter(); stop_runnable(me, 'U', z);
-    if (z->owner != me) { fprintf(stderr, "zv_sched: unlock by non-owner\n"); _exit(6); }
+    if (z->owner != me) zv_fatal("unlock by non-owner");
     z->owner = -1;
     leave(); return 0;
 }
 int zv_cond_init(pthread_cond_t* c, const pthread_condattr_t* a) { zv_cond* z = (zv_cond*)c; (void)a; z->magic = ZV_CMAGIC; z->id = 0; return 0; }
 int zv_cond_destroy(pthread_cond_t* c) {
     zv_cond* z = (zv_cond*)c; int t;
-    for (t = 0; t < g_nt; t++) if (T[t].used && T[t].st == ZS_COND && T[t].obj == (void*)z) { fprintf(stderr, "zv_sched: destroy of a condition with waiters\n"); _exit(6); }
+    for (t = 0; t < g_nt; t++) if (T[t].used && T[t].st == ZS_COND && T[t].obj == (void*)z) zv_fatal("destroy of a condition with waiters");
     z->magic = 0; return 0;
 }
 int zv_cond_wait(pthread_cond_t* c, pthread_mutex_t* m) {
     zv_cond* zc = (zv_cond*)c; zv_mutex* z = (zv_mutex*)m; int me = zv_me;
     enter(); stop_runnable(me, 'W', zc);               /* standing at cond_wait */
-    if (z->owner != me || zc->magic != ZV_CMAGIC) { fprintf(stderr, "zv_sched: bad cond_wait\n"); _exit(6); }
+    if (z->owner != me || zc->magic != ZV_CMAGIC) zv_fatal("bad cond_wait");
     z->owner = -1; T[me].st = ZS_COND; T[me].obj = zc; T[me].mtx = z;
     reschedule(me);                                   /* asleep: a signaller turns the status into ZS_MUTEX */
     z->owner = me; T[me].st = ZS_RUN;
